@@ -330,7 +330,9 @@ class Type4Tag(nfc.tag.Tag):
                 offset += self._update_binary(offset, data[offset:])
 
             if nlen:
-                self._update_binary(0, nlen)
+                offset = 0
+                while offset < len(nlen):
+                    offset += self._update_binary(offset, nlen[offset:])
 
             return True
 
